@@ -1,4 +1,4 @@
-SPECIFICATION MCLifecycleSpec
+SPECIFICATION GenLifecycleSpec
 CONSTANTS
   DedupCap = 2
   Defect_NoSessionStarted = FALSE
@@ -8,17 +8,14 @@ CONSTANTS
   SelectAllFifo = FALSE
   Sessions = {"s1"}
   TopicNames = {"t1"}
-  LiveOps = {"x"}
-  LivePayloads = {"x"}
-  MaxN = 1
-  MaxR = 1
-  MaxFailAt = 6
-  MaxFaults = 1
-  MaxLiveIn = 1
-  MaxLiveQ = 1
+  LiveOps = {"r1", "x"}
+  LivePayloads = {"x", "l1"}
+  MaxN = 2
+  MaxR = 2
+  MaxFailAt = 9
+  MaxFaults = 2
+  MaxLiveIn = 2
+  MaxLiveQ = 2
 INVARIANTS
-  C22_Lifecycle
-  C22_NoHang
-  C22_NoSpin
-VIEW NoHistView
+  ExportLifecycle
 CHECK_DEADLOCK FALSE
